@@ -423,7 +423,9 @@ def r20_s(ctx):
     from . import c01
     ctx.include(c01.r01_2, 'R20.S')
     ctx.include(c01.r01_2b, 'R20.S')
-    ctx.include(c01.r01_11, 'R20.S')  # positions measured over a repaired (lossy) text are mapped back, for results and for errors
+    ctx.include(c01.r01_11, 'R20.S')
+    from . import c09
+    ctx.include(c09.r09_9, 'R20.S')   # the recorded position of the next invalid byte is absolute: an error built from it lies inside the input  # positions measured over a repaired (lossy) text are mapped back, for results and for errors
 
 
 RULES = [("R20.1", r20_1), ("R20.2", r20_2), ("R20.3", r20_3), ("R20.4", r20_4), ("R20.5", r20_5), ("R20.6", r20_6), ("R20.7", r20_7), ("R20.S", r20_s)]
